@@ -216,7 +216,8 @@ struct sm_type : C::manager::template impl< sm_type< C >, typename C::in_opt, ty
 // events
 enum Kind : std::uint8_t { K_PDU, K_POLL, K_USER_YES, K_USER_NO, K_ENC_ON_PAIRING_KEY, K_ENC_ON_BOND_KEY, K_ENC_OFF,
                            K_CFG_OOB_PRESENT, K_CFG_DB_SAME_PEER, K_CFG_DB_OTHER_PEER, K_CFG_DB_LESC_SAME_PEER,
-                           K_PREFIX_NC_EA_VERIFIED_ABORTED, K_PREFIX_NC_EA_VERIFIED_DECLINED, K_PREFIX_LEGACY_COMPLETED, K_PREFIX_LESC_COMPLETED };
+                           K_PREFIX_NC_EA_VERIFIED_ABORTED, K_PREFIX_NC_EA_VERIFIED_DECLINED, K_PREFIX_LEGACY_COMPLETED, K_PREFIX_LESC_COMPLETED,
+                           K_PREFIX_LEGACY_PASSKEY_COMPLETED, K_PREFIX_NC_COMPLETED };
 
 // variants of the PDUs
 enum { RQ_LEG_NOIO, RQ_LEG_KBDISP, RQ_LEG_OOB, RQ_LESC_NOIO, RQ_LESC_KBDISP, RQ_LESC_KBONLY, RQ_LESC_OOB,
@@ -352,6 +353,9 @@ struct World
             }
             if ( legacy ) other( K_PREFIX_LEGACY_COMPLETED, "prefix: completed legacy just works pairing" );
             if ( lesc )   other( K_PREFIX_LESC_COMPLETED, "prefix: completed LESC pairing without user interaction" );
+            // ... and after an *authenticated* pairing
+            if ( legacy && C::out == 1 && C::in != 2 ) other( K_PREFIX_LEGACY_PASSKEY_COMPLETED, "prefix: completed legacy passkey entry pairing (passkey displayed)" );
+            if ( lesc && C::in == 1 && C::out == 1 )   other( K_PREFIX_NC_COMPLETED, "prefix: completed numeric comparison pairing, confirmed by the user" );
         }
     }
 
@@ -543,6 +547,12 @@ struct World
                 script = { find_ev( K_PDU, 1, RQ_LESC_KBDISP ), find_ev( K_PDU, 0x0c, PK_VALID ), find_ev( K_POLL ), find_ev( K_PDU, 4, RN_A ), find_ev( K_PDU, 0x0d, DH_OK ) };
                 if ( e.kind == K_PREFIX_NC_EA_VERIFIED_ABORTED ) script.push_back( find_ev( K_PDU, 0x05, 0 ) );
                 else { script.push_back( find_ev( K_USER_NO ) ); script.push_back( find_ev( K_POLL ) ); }
+                break;
+            case K_PREFIX_LEGACY_PASSKEY_COMPLETED:
+                script = { find_ev( K_PDU, 1, RQ_LEG_KBDISP ), find_ev( K_PDU, 3, CF_TK_DISP ), find_ev( K_PDU, 4, RN_A ) };
+                break;
+            case K_PREFIX_NC_COMPLETED:
+                script = { find_ev( K_PDU, 1, RQ_LESC_KBDISP ), find_ev( K_PDU, 0x0c, PK_VALID ), find_ev( K_POLL ), find_ev( K_PDU, 4, RN_A ), find_ev( K_USER_YES ), find_ev( K_PDU, 0x0d, DH_OK ) };
                 break;
             case K_PREFIX_LEGACY_COMPLETED:
                 script = { find_ev( K_PDU, 1, RQ_LEG_NOIO ), find_ev( K_PDU, 3, CF_TK0 ), find_ev( K_PDU, 4, RN_A ) };
